@@ -5,6 +5,7 @@ import (
 	"math/bits"
 	"math/rand"
 	"reflect"
+	"runtime"
 	"strconv"
 	"strings"
 
@@ -20,6 +21,14 @@ import (
 // Ops: consts, w2m, m2w, tile (Layer.ProjectToWGS84 then Layer.ProjectToTile; features may be nil or typed
 // nil), tiles (Layers.ProjectToWGS84 then Layers.ProjectToTile, each layer with its own extent), totile,
 // proj (call-counting affine point function), projh (slices that share backing arrays).
+//
+// Stateful receivers (white-box round): a trailing input token `w` / `wc` on tile / tiles / totile runs the
+// measured calls on a layer VALUE that has already been used for other tiles and another extent (`wc`: on a
+// struct copy of that used value); op seq drives three layer values and one Layers value through a
+// sequence of (tile, extent) steps, every step measured; op abs compares Layer.ProjectToWGS84 of the tile's
+// corners with maptile's Tile.Bound().  Sizes: projd runs the exported per-kind helper instead of
+// project.Geometry; projn builds geometries of up to ~70000 vertices / members from a formula and returns a
+// digest of the result (the Lean side rebuilds the input and digests model and specification).
 //
 // As for C18, libm values (sin log atan exp tan) travel with every case in a table "T n (fn arg value)*"
 // recorded by mirrors of the closed forms; the implementation's outputs always come from the real orb code.
@@ -132,6 +141,13 @@ func runC15(op string, in []string) string {
 			var c9999 float64 = 0.9999
 			return strings.Join([]string{fb(math.Pi), fb(twoPi), fb(piHalf), fb(d180pi), fb(orb.EarthRadius), fb(rPi), fb(rPi180), fb(c9999),
 				strconv.Itoa(int(mvt.DefaultExtent))}, " ")
+		case "shape": // the fields of mvt.Layer: the model's layer is (extent, features); a field the model does not know is state it cannot follow
+			ty := reflect.TypeOf(mvt.Layer{})
+			var fs []string
+			for i := 0; i < ty.NumField(); i++ {
+				fs = append(fs, ty.Field(i).Name+":"+strings.ReplaceAll(ty.Field(i).Type.String(), " ", ""))
+			}
+			return "Layer " + strconv.Itoa(len(fs)) + " " + strings.Join(fs, " ") + " Layers " + strings.ReplaceAll(reflect.TypeOf(mvt.Layers{}).Elem().String(), " ", "")
 		case "w2m": // lon/lat -> mercator -> lon/lat
 			g := r.pt()
 			m := project.WGS84.ToMercator(g)
@@ -158,6 +174,7 @@ func runC15(op string, in []string) string {
 			for _, f := range layer.Features {
 				eachVertexVal(f.Geometry, mir.toWGS84)
 			}
+			layer = c15Warm(layer, r, x, y, z)
 			layer.ProjectToWGS84(tile)
 			var sb strings.Builder
 			for _, f := range layer.Features {
@@ -175,6 +192,7 @@ func runC15(op string, in []string) string {
 			layer := &mvt.Layer{Name: "l", Version: 2, Extent: extent, Features: []*geojson.Feature{geojson.NewFeature(r.geom())}}
 			mir := newTileMirror(t, tile, extent)
 			eachVertexVal(layer.Features[0].Geometry, mir.toTile)
+			layer = c15Warm(layer, r, x, y, z)
 			layer.ProjectToTile(tile)
 			return gs(layer.Features[0].Geometry) + " " + t.String()
 		case "tiles": // X Y Z n (extent k geom*)^n : Layers.ProjectToWGS84 then Layers.ProjectToTile
@@ -198,6 +216,26 @@ func runC15(op string, in []string) string {
 					eachVertexVal(f.Geometry, mirs[j].toWGS84)
 				}
 			}
+			if w := r.rest(); len(w) > 0 && (w[0] == "w" || w[0] == "wc" || w[0] == "wn" || w[0] == "n") {
+				for j := range layers {
+					layers[j] = c15WarmTok(layers[j], w[0], x, y, z)
+				}
+			}
+			if w := r.rest(); len(w) > 0 && (w[0] == "w" || w[0] == "wc" || w[0] == "wn") {
+				// every layer value and the Layers value itself have been used for other tiles before
+				saved := make([][]*geojson.Feature, len(layers))
+				for j, l := range layers {
+					saved[j], l.Features = l.Features, []*geojson.Feature{geojson.NewFeature(orb.Point{3, 4})}
+				}
+				layers.ProjectToWGS84(maptile.New(x+1, y^1, maptile.Zoom(z)))
+				layers.ProjectToTile(maptile.New(x^2, y+1, maptile.Zoom(z)))
+				for j, l := range layers {
+					l.Features = saved[j]
+				}
+				if w[0] == "wc" {
+					layers = append(mvt.Layers{}, layers...)
+				}
+			}
 			layers.ProjectToWGS84(tile)
 			var sb strings.Builder
 			for j, l := range layers {
@@ -213,7 +251,7 @@ func runC15(op string, in []string) string {
 				}
 			}
 			return sb.String() + t.String()
-		case "proj": // a b c d e f g h geom : project.Geometry with the k-th call computing an affine map shifted by k
+		case "proj", "projd": // a b c d e f g h geom : project.Geometry (projd: the exported helper of the kind) with the k-th call computing an affine map shifted by k
 			var co [8]float64
 			for i := range co {
 				co[i] = r.f()
@@ -225,7 +263,12 @@ func runC15(op string, in []string) string {
 				calls++
 				return orb.Point{co[0]*p[0] + co[1]*p[1] + co[2] + k*co[3], co[4]*p[0] + co[5]*p[1] + co[6] + k*co[7]}
 			}
-			res := project.Geometry(g, fn)
+			var res orb.Geometry
+			if op == "projd" {
+				res = c15ProjectDirect(g, fn)
+			} else {
+				res = project.Geometry(g, fn)
+			}
 			alias := "v"
 			if isSliceKind(g) {
 				// in place: the argument now holds the projected values AND the result is the very same slice
@@ -248,9 +291,334 @@ func runC15(op string, in []string) string {
 			res := project.Geometry(g, fn)
 			// every backing array afterwards, the returned value and the argument, each slice located by pointer
 			return heapString(arrays) + " " + locString(res, arrays) + " " + locString(g, arrays)
+		case "projn": // via kind n bigAt bigN bigKind procs a..h : a geometry built by formula (c15BigGeom), digest of the result
+			via, kind := r.next(), r.next()
+			n, bigAt, bigN, bigKind, procs := r.int(), r.int(), r.int(), r.int(), r.int()
+			var co [8]float64
+			for i := range co {
+				co[i] = r.f()
+			}
+			g := c15BigGeom(kind, n, bigAt, bigN, bigKind)
+			calls := 0
+			fn := func(p orb.Point) orb.Point {
+				k := float64(calls)
+				calls++
+				return orb.Point{co[0]*p[0] + co[1]*p[1] + co[2] + k*co[3], co[4]*p[0] + co[5]*p[1] + co[6] + k*co[7]}
+			}
+			if procs > 0 {
+				defer runtime.GOMAXPROCS(runtime.GOMAXPROCS(procs))
+			}
+			var res orb.Geometry
+			if via == "D" {
+				res = c15ProjectDirect(g, fn)
+			} else {
+				res = project.Geometry(g, fn)
+			}
+			alias := "v"
+			if isSliceKind(g) {
+				va, vr := reflect.ValueOf(g), reflect.ValueOf(res)
+				alias = b2s(va.Type() == vr.Type() && va.Pointer() == vr.Pointer() && va.Len() == vr.Len() && c15Digest(g) == c15Digest(res))
+			}
+			return strconv.FormatUint(c15Digest(res), 16) + " " + strconv.Itoa(calls) + " " + alias
+		case "abs": // X Y Z extent MP 4 corners/pixels : Layer.ProjectToWGS84 of the tile's corners next to maptile's Tile.Bound()
+			x, y, z, extent := uint32(r.int()), uint32(r.int()), r.int(), uint32(r.int())
+			tile := maptile.New(x, y, maptile.Zoom(z))
+			layer := &mvt.Layer{Name: "l", Version: 2, Extent: extent, Features: []*geojson.Feature{geojson.NewFeature(r.geom())}}
+			mir := newTileMirror(t, tile, extent)
+			eachVertexVal(layer.Features[0].Geometry, mir.toWGS84)
+			layer = c15Warm(layer, r, x, y, z)
+			layer.ProjectToWGS84(tile)
+			return gs(layer.Features[0].Geometry) + " " + gs(tile.Bound()) + " " + t.String()
+		case "seq": // n (X Y Z extent a b flags k geom*)^n : three layer values and one Layers value driven through a sequence of steps
+			n := r.int()
+			slots := []*mvt.Layer{{Name: "a", Version: 2}, {Name: "b", Version: 2}, mvt.NewLayer("c", &geojson.FeatureCollection{})}
+			all := mvt.Layers{slots[0], slots[1], slots[2]}
+			var sb strings.Builder
+			for s := 0; s < n; s++ {
+				x, y, z, extent := uint32(r.int()), uint32(r.int()), r.int(), uint32(r.int())
+				a, b, flags, k := r.int()%3, r.int()%3, r.int(), r.int()
+				tile := maptile.New(x, y, maptile.Zoom(z))
+				if flags&1 != 0 { // a struct copy of the used layer value takes its place
+					cp := *slots[a]
+					slots[a], all[a] = &cp, &cp
+				}
+				if flags&4 != 0 { // a copy of the used Layers value
+					all = append(mvt.Layers{}, all...)
+				}
+				la, lb := slots[a], slots[b]
+				la.Extent, la.Features = extent, nil
+				for i := 0; i < k; i++ {
+					la.Features = append(la.Features, geojson.NewFeature(r.geom()))
+				}
+				mir := newTileMirror(t, tile, extent)
+				for _, f := range la.Features {
+					eachVertexVal(f.Geometry, mir.toWGS84)
+				}
+				if flags&2 != 0 {
+					all.ProjectToWGS84(tile)
+				} else {
+					la.ProjectToWGS84(tile)
+				}
+				for _, f := range la.Features {
+					sb.WriteString(gs(f.Geometry) + " ")
+					eachVertexVal(f.Geometry, mir.toTile)
+				}
+				if b != a { // the way back on ANOTHER layer value (as after Marshal / Unmarshal)
+					lb.Extent, lb.Features, la.Features = extent, la.Features, nil
+				}
+				if flags&2 != 0 {
+					all.ProjectToTile(tile)
+				} else {
+					lb.ProjectToTile(tile)
+				}
+				for _, f := range lb.Features {
+					sb.WriteString(gs(f.Geometry) + " ")
+				}
+				lb.Features = nil
+			}
+			return sb.String() + t.String()
 		}
 		return "badop"
 	})
+}
+
+// c15ProjectDirect calls the exported helper of the geometry's kind (project.Geometry for the nil interface).
+func c15ProjectDirect(g orb.Geometry, fn orb.Projection) orb.Geometry {
+	switch g := g.(type) {
+	case orb.Point:
+		return project.Point(g, fn)
+	case orb.MultiPoint:
+		return project.MultiPoint(g, fn)
+	case orb.LineString:
+		return project.LineString(g, fn)
+	case orb.MultiLineString:
+		return project.MultiLineString(g, fn)
+	case orb.Ring:
+		return project.Ring(g, fn)
+	case orb.Polygon:
+		return project.Polygon(g, fn)
+	case orb.MultiPolygon:
+		return project.MultiPolygon(g, fn)
+	case orb.Collection:
+		return project.Collection(g, fn)
+	case orb.Bound:
+		return project.Bound(g, fn)
+	}
+	return project.Geometry(g, fn)
+}
+
+// c15WarmUp uses the layer value for other tiles and another extent (without and with features) before
+// the measured calls: nothing of that may survive in the receiver.  With cp the measured calls run on a
+// struct copy of the used value.
+func c15WarmUp(l *mvt.Layer, x, y uint32, z int, cp bool) *mvt.Layer {
+	fs, e := l.Features, l.Extent
+	mk := func() []*geojson.Feature {
+		return []*geojson.Feature{geojson.NewFeature(orb.Point{1, 2}), geojson.NewFeature(orb.LineString{{0, 0}, {3, 5}})}
+	}
+	l.Features = nil
+	l.ProjectToWGS84(maptile.New(x^1, y, maptile.Zoom(z)))
+	l.Features, l.Extent = mk(), e^7
+	l.ProjectToTile(maptile.New(x, y^1, maptile.Zoom(z)))
+	l.Features, l.Extent = mk(), e
+	l.ProjectToWGS84(maptile.New(x+1, y+2, maptile.Zoom(z+1)))
+	l.Features, l.Extent = mk(), 2*e+1
+	l.ProjectToTile(maptile.New(x/2, y/2, maptile.Zoom(z/2)))
+	l.ProjectToWGS84(maptile.New(x/2, y/2, maptile.Zoom(z/2)))
+	l.Features, l.Extent = mk(), e
+	l.ProjectToWGS84(maptile.New(x, y, maptile.Zoom(z+1))) // the same x, y at another zoom; x and y swapped
+	l.ProjectToTile(maptile.New(y, x, maptile.Zoom(z)))
+	l.Features, l.Extent = fs, e
+	if cp {
+		c := *l
+		return &c
+	}
+	return l
+}
+
+// c15Warm: the trailing input token `w` (warm-up on the same value), `wc` (then a struct copy), `n` (the
+// layer is built by mvt.NewLayer instead of a struct literal), `wn` (built by NewLayer, then warmed up).
+func c15Warm(l *mvt.Layer, r *tokReader, x, y uint32, z int) *mvt.Layer {
+	w := r.rest()
+	if len(w) == 0 {
+		return l
+	}
+	return c15WarmTok(l, w[0], x, y, z)
+}
+
+func c15WarmTok(l *mvt.Layer, tok string, x, y uint32, z int) *mvt.Layer {
+	if tok == "n" || tok == "wn" {
+		nl := mvt.NewLayer(l.Name, &geojson.FeatureCollection{Features: l.Features})
+		nl.Version, nl.Extent = l.Version, l.Extent
+		l = nl
+	}
+	if tok == "w" || tok == "wc" || tok == "wn" {
+		return c15WarmUp(l, x, y, z, tok == "wc")
+	}
+	return l
+}
+
+// ---------- formula-built big geometries and their digest ----------
+
+func c15BigPt(j int) orb.Point { return orb.Point{float64(j % 97), float64(j % 89)} }
+
+// c15BigGeom: flat kinds (MP LS R) hold n points; MLS / PG hold n members of 1 + i%3 points; MPG holds n
+// polygons of 1 + i%2 rings of 1 + (i+r)%3 points; C holds n members cycling P, LS(2), MP(1), B, R(3),
+// PG(1 ring of 2).  Member bigAt (when bigN > 0) holds bigN points instead: a line / ring (first ring of
+// the polygon) or, in a collection, a geometry of kind bigKind (0 MP, 1 LS, 2 R, 3 PG, 4 MLS, 5 MPG).
+// The vertices are c15BigPt(0), c15BigPt(1), ... in storage order.
+func c15BigGeom(kind string, n, bigAt, bigN, bigKind int) orb.Geometry {
+	j := 0
+	pts := func(k int) []orb.Point {
+		ps := make([]orb.Point, k)
+		for i := range ps {
+			ps[i] = c15BigPt(j)
+			j++
+		}
+		return ps
+	}
+	sz := func(i, d int) int {
+		if i == bigAt && bigN > 0 {
+			return bigN
+		}
+		return 1 + d%3
+	}
+	switch kind {
+	case "MP":
+		return orb.MultiPoint(pts(n))
+	case "LS":
+		return orb.LineString(pts(n))
+	case "R":
+		return orb.Ring(pts(n))
+	case "MLS":
+		m := make(orb.MultiLineString, n)
+		for i := range m {
+			m[i] = orb.LineString(pts(sz(i, i)))
+		}
+		return m
+	case "PG":
+		m := make(orb.Polygon, n)
+		for i := range m {
+			m[i] = orb.Ring(pts(sz(i, i)))
+		}
+		return m
+	case "MPG":
+		m := make(orb.MultiPolygon, n)
+		for i := range m {
+			pg := make(orb.Polygon, 1+i%2)
+			for q := range pg {
+				if q == 0 {
+					pg[q] = orb.Ring(pts(sz(i, i)))
+				} else {
+					pg[q] = orb.Ring(pts(1 + (i+q)%3))
+				}
+			}
+			m[i] = pg
+		}
+		return m
+	case "C":
+		c := make(orb.Collection, n)
+		for i := range c {
+			if i == bigAt && bigN > 0 {
+				switch bigKind {
+				case 0:
+					c[i] = orb.MultiPoint(pts(bigN))
+				case 1:
+					c[i] = orb.LineString(pts(bigN))
+				case 2:
+					c[i] = orb.Ring(pts(bigN))
+				case 3:
+					c[i] = orb.Polygon{orb.Ring(pts(bigN))}
+				case 4:
+					c[i] = orb.MultiLineString{orb.LineString(pts(bigN))}
+				default:
+					c[i] = orb.MultiPolygon{orb.Polygon{orb.Ring(pts(bigN))}}
+				}
+				continue
+			}
+			switch i % 6 {
+			case 0:
+				c[i] = pts(1)[0]
+			case 1:
+				c[i] = orb.LineString(pts(2))
+			case 2:
+				c[i] = orb.MultiPoint(pts(1))
+			case 3:
+				ps := pts(2)
+				c[i] = orb.Bound{Min: ps[0], Max: ps[1]}
+			case 4:
+				c[i] = orb.Ring(pts(3))
+			default:
+				c[i] = orb.Polygon{orb.Ring(pts(2))}
+			}
+		}
+		return c
+	}
+	panic("bigGeom: kind")
+}
+
+// c15Digest: word-wise FNV-1a over kind codes, member counts and coordinate bit patterns (Driver.C15.digGeom).
+func c15Digest(g orb.Geometry) uint64 {
+	h := uint64(14695981039346656037)
+	w := func(x uint64) { h = (h ^ x) * 1099511628211 }
+	wp := func(p orb.Point) { w(math.Float64bits(p[0])); w(math.Float64bits(p[1])) }
+	wps := func(ps []orb.Point) {
+		w(uint64(len(ps)))
+		for _, p := range ps {
+			wp(p)
+		}
+	}
+	var rec func(g orb.Geometry)
+	rec = func(g orb.Geometry) {
+		switch g := g.(type) {
+		case orb.Point:
+			w(1)
+			wp(g)
+		case orb.MultiPoint:
+			w(2)
+			wps(g)
+		case orb.LineString:
+			w(3)
+			wps(g)
+		case orb.MultiLineString:
+			w(4)
+			w(uint64(len(g)))
+			for _, l := range g {
+				wps(l)
+			}
+		case orb.Ring:
+			w(5)
+			wps(g)
+		case orb.Polygon:
+			w(6)
+			w(uint64(len(g)))
+			for _, l := range g {
+				wps(l)
+			}
+		case orb.MultiPolygon:
+			w(7)
+			w(uint64(len(g)))
+			for _, pg := range g {
+				w(uint64(len(pg)))
+				for _, l := range pg {
+					wps(l)
+				}
+			}
+		case orb.Bound:
+			w(8)
+			wp(g.Min)
+			wp(g.Max)
+		case orb.Collection:
+			w(9)
+			w(uint64(len(g)))
+			for _, m := range g {
+				rec(m)
+			}
+		default:
+			w(0)
+		}
+	}
+	rec(g)
+	return h
 }
 
 // ---------- generators ----------
@@ -393,14 +761,300 @@ func diagScan(c *Ctx, x, y uint32, z, extent, chunk int) {
 		for i := lo; i < lo+chunk && i < 2*extent; i++ {
 			mp = append(mp, orb.Point{float64(i), float64(i)})
 		}
-		c.Case("tile", tileHdr(x, y, z, extent)+" 1 "+gs(mp))
+		c.Case("tile", tileHdr(x, y, z, extent)+" 1 "+gs(mp)+c15WarmSuffix[(lo/chunk+3*extent)%5])
 	}
+}
+
+// c15WarmSuffix: measured calls on a fresh layer value / on a used one / on a struct copy of a used one
+var c15WarmSuffix = []string{"", " w", " wc", " n", " wn"}
+
+// c15AbsCase: the tile's corners (pixel -0.5 and extent-0.5: exactly the corners of Tile.Bound()) and the
+// pixels (0,0) and (extent, extent) through Layer.ProjectToWGS84
+func c15AbsCase(c *Ctx, x, y uint32, z, extent int, suffix string) {
+	e := float64(extent)
+	if extent == 0 {
+		e = 4294967296
+	}
+	c.Case("abs", tileHdr(x, y, z, extent)+" "+gs(orb.MultiPoint{{-0.5, -0.5}, {e - 0.5, e - 0.5}, {0, 0}, {e, e}})+suffix)
+}
+
+// bigSizes: the lengths around every power of two from 64 to 65536 and a few primes
+func c15BigSizes(tier string) []int {
+	var out []int
+	for k := 6; k <= 16; k++ {
+		if tier == "thorough" || k < 14 {
+			out = append(out, 1<<uint(k)-1, 1<<uint(k))
+		}
+		out = append(out, 1<<uint(k)+1)
+	}
+	out = append(out, 1000, 5003, 10007, 70001)
+	if tier == "thorough" {
+		out = append(out, 50021, 100003, 131071)
+	}
+	return out
+}
+
+var c15BigCoeffs = [][8]float64{{2, 0, 1, 1, 0, 3, -1, 2}, {1, 0, 0, 1, 0, 1, 0, 100}, {0, -1, 5, -3, 1, 0, 0, 7}}
+
+func c15CoeffTok(co [8]float64) string {
+	t := make([]string, 8)
+	for i, v := range co {
+		t[i] = fb(v)
+	}
+	return strings.Join(t, " ")
+}
+
+// genBig: every exported helper of project/helpers.go on slices whose OWN length sweeps bigSizes (points of a
+// MultiPoint / LineString / Ring; rings of a Polygon; lines of a MultiLineString; polygons of a
+// MultiPolygon; members of a Collection) and on containers one of whose members is that long, through
+// project.Geometry (G) and called directly (D), with the call-counting point function.
+func c15GenBig(c *Ctx) {
+	idx := 5000
+	emit := func(op, in string) {
+		idx++
+		if c.Mine(idx) && !c.Exhausted() {
+			c.Case(op, in)
+		}
+	}
+	// explicit geometries (the whole result travels): small part of the family
+	for i, n := range []int{63, 64, 65, 1023, 1025, 4095, 4096, 4097, 5003} {
+		ps := make([]orb.Point, n)
+		for j := range ps {
+			ps[j] = orb.Point{float64(j % 97), float64(j % 89)}
+		}
+		cl := func() []orb.Point { return append([]orb.Point{}, ps...) }
+		co := c15CoeffTok(c15BigCoeffs[i%len(c15BigCoeffs)])
+		for _, g := range []orb.Geometry{orb.MultiPoint(cl()), orb.LineString(cl()), orb.Ring(cl()), orb.Polygon{orb.Ring(append(cl(), ps[0]))},
+			orb.MultiLineString{{{1, 2}}, orb.LineString(cl())}, orb.MultiPolygon{{orb.Ring(cl()), {{3, 4}}}}, orb.Collection{orb.Point{5, 6}, orb.LineString(cl())}} {
+			emit("proj", co+" "+gs(g))
+			emit("projd", co+" "+gs(g))
+		}
+	}
+	// formula-built geometries (digest of the result)
+	sizes := c15BigSizes(c.Tier)
+	for i, n := range sizes {
+		co := c15CoeffTok(c15BigCoeffs[i%len(c15BigCoeffs)])
+		for _, via := range []string{"G", "D"} {
+			hdr := func(kind string, n, bigAt, bigN, bigKind, procs int) string {
+				return via + " " + kind + " " + strconv.Itoa(n) + " " + strconv.Itoa(bigAt) + " " + strconv.Itoa(bigN) + " " + strconv.Itoa(bigKind) + " " + strconv.Itoa(procs) + " " + co
+			}
+			for _, kind := range []string{"MP", "LS", "R"} {
+				emit("projn", hdr(kind, n, 0, 0, 0, 0))
+				if n >= 4095 { // a parallel path would depend on GOMAXPROCS
+					emit("projn", hdr(kind, n, 0, 0, 0, 3+i%2))
+				}
+			}
+			// the container's own slice is that long
+			if c.Tier == "thorough" || n <= 8193 || n == 65537 || n == 70001 {
+				for _, kind := range []string{"MLS", "PG", "MPG", "C"} {
+					emit("projn", hdr(kind, n, 0, 0, 0, 0))
+				}
+			}
+			// one member of a small container is that long (first, middle or last member)
+			for _, kind := range []string{"MLS", "PG", "MPG"} {
+				emit("projn", hdr(kind, 3, i%3, n, 0, 0))
+			}
+			emit("projn", hdr("C", 4+i%5, i%4, n, i%6, 0))
+			if n >= 4095 {
+				emit("projn", hdr("C", 4+i%5, (i+1)%4, n, (i+3)%6, 4-i%2))
+			}
+		}
+	}
+}
+
+// c15GenLayerSizes: layers of many features, features of many vertices, Layers of many layers
+func c15GenLayerSizes(c *Ctx) {
+	idx := 9000
+	mine := func() bool { idx++; return c.Mine(idx) && !c.Exhausted() }
+	tiles := [][4]int{{1, 1, 2, 4096}, {300, 700, 10, 1000}, {2097157, 1048653, 22, 512}}
+	ks := []int{63, 64, 65, 257, 1025, 4097}
+	ns := []int{1023, 1025, 4095, 4096, 4097, 5003}
+	nl := []int{17, 65, 257, 1025}
+	if c.Tier == "thorough" {
+		ks, ns, nl = append(ks, 16385), append(ns, 16385, 65537), append(nl, 4097)
+	}
+	for ti, tl := range tiles {
+		e := tl[3]
+		px := func(i int) orb.Point { return orb.Point{float64(i%(3*e) - e), float64((7*i)%(3*e) - e)} }
+		for i, k := range ks {
+			if !mine() {
+				continue
+			}
+			var sb strings.Builder
+			for j := 0; j < k; j++ {
+				sb.WriteString(" " + gs(px(j)))
+			}
+			c.Case("tile", tileHdr(uint32(tl[0]), uint32(tl[1]), tl[2], e)+" "+strconv.Itoa(k)+sb.String()+c15WarmSuffix[(i+ti)%5])
+		}
+		for i, n := range ns {
+			if !mine() {
+				continue
+			}
+			ps := make([]orb.Point, n)
+			for j := range ps {
+				ps[j] = px(j)
+			}
+			var g orb.Geometry = orb.LineString(ps)
+			switch (i + ti) % 3 {
+			case 1:
+				g = orb.Polygon{orb.Ring(ps)}
+			case 2:
+				g = orb.Collection{orb.MultiPoint(ps), orb.Point{1, 2}}
+			}
+			c.Case("tile", tileHdr(uint32(tl[0]), uint32(tl[1]), tl[2], e)+" 1 "+gs(g)+c15WarmSuffix[(i+ti+1)%5])
+		}
+		for i, n := range nl {
+			if !mine() {
+				continue
+			}
+			var sb strings.Builder
+			exts := []int{4096, 512, 1000, 256, 4096, 777, 8192}
+			for j := 0; j < n; j++ {
+				ee := exts[j%len(exts)]
+				sb.WriteString(" " + strconv.Itoa(ee) + " 1 " + gs(orb.Point{float64(j % ee), float64((3 * j) % ee)}))
+			}
+			c.Case("tiles", strconv.Itoa(tl[0])+" "+strconv.Itoa(tl[1])+" "+strconv.Itoa(tl[2])+" "+strconv.Itoa(n)+sb.String()+c15WarmSuffix[(i+ti)%5])
+		}
+	}
+}
+
+// c15SeqStep: one step of op seq
+func c15SeqStep(x, y uint32, z, extent, a, b, flags int, feats ...orb.Geometry) string {
+	var sb strings.Builder
+	sb.WriteString(" " + tileHdr(x, y, z, extent) + " " + strconv.Itoa(a) + " " + strconv.Itoa(b) + " " + strconv.Itoa(flags) + " " + strconv.Itoa(len(feats)))
+	for _, f := range feats {
+		sb.WriteString(" " + gs(f))
+	}
+	return sb.String()
+}
+
+// c15InTileGeom: pixels inside the tile only (no buffer): op seq stays clear of the polar clamp of zoom 0 and 1
+func c15InTileGeom(r *rand.Rand, extent int) orb.Geometry {
+	if extent == 0 {
+		extent = 2
+	}
+	n := 1 + r.Intn(4)
+	ps := make([]orb.Point, n)
+	for i := range ps {
+		ps[i] = orb.Point{float64(r.Intn(extent)), float64(r.Intn(extent))}
+	}
+	if r.Intn(2) == 0 {
+		return orb.LineString(ps)
+	}
+	return orb.MultiPoint(ps)
+}
+
+func c15AnyExtent(r *rand.Rand) int {
+	switch r.Intn(8) {
+	case 0, 1:
+		return otherExtents[r.Intn(len(otherExtents))]
+	case 2:
+		return edgeExtents[r.Intn(len(edgeExtents))]
+	}
+	return pow2Extents[r.Intn(len(pow2Extents))]
+}
+
+// c15GenSeq: 2-6 steps over a pool of 1-3 tiles and 1-3 extents (so that tiles repeat with other extents and
+// extents with other tiles, A B A), each step on one of three layer values, the way back on the same or on
+// another value, now and then through the Layers value or on struct copies; steps without features are
+// pure warm-ups.
+func c15GenSeq(c *Ctx) {
+	r := c.Rng
+	type tl struct {
+		x, y uint32
+		z    int
+	}
+	var pool []tl
+	x, y, z := randTile(r)
+	pool = append(pool, tl{x, y, z})
+	for len(pool) < 1+r.Intn(3) {
+		nb := r.Intn(6)
+		if z == 0 {
+			nb = 5 // zoom 0 has one tile
+		}
+		switch nb {
+		case 0: // a neighbour
+			pool = append(pool, tl{x ^ 1, y, z})
+		case 1:
+			pool = append(pool, tl{x, y ^ 1, z})
+		case 2: // x and y swapped
+			pool = append(pool, tl{y, x, z})
+		case 3: // the same x, y one zoom deeper (or the parent)
+			if z < 22 {
+				pool = append(pool, tl{x, y, z + 1})
+			} else {
+				pool = append(pool, tl{x / 2, y / 2, z - 1})
+			}
+		case 4: // a child
+			if z < 22 {
+				pool = append(pool, tl{2*x + 1, 2 * y, z + 1})
+			} else {
+				pool = append(pool, tl{x / 2, y / 2, z - 1})
+			}
+		default:
+			x2, y2, z2 := randTile(r)
+			pool = append(pool, tl{x2, y2, z2})
+		}
+	}
+	exts := []int{c15AnyExtent(r)}
+	for len(exts) < 1+r.Intn(3) {
+		exts = append(exts, c15AnyExtent(r))
+	}
+	n := 2 + r.Intn(5)
+	var sb strings.Builder
+	for s := 0; s < n; s++ {
+		t := pool[r.Intn(len(pool))]
+		e := exts[r.Intn(len(exts))]
+		a := r.Intn(3)
+		b := a
+		if r.Intn(3) == 0 {
+			b = r.Intn(3)
+		}
+		flags := 0
+		if r.Intn(5) == 0 {
+			flags |= 1
+		}
+		if r.Intn(4) == 0 {
+			flags |= 2
+		}
+		if r.Intn(8) == 0 {
+			flags |= 4
+		}
+		var feats []orb.Geometry
+		for i := r.Intn(3); i > 0; i-- {
+			if t.z <= 1 {
+				feats = append(feats, c15InTileGeom(r, e))
+			} else {
+				feats = append(feats, tileGeom(r, e, 1))
+			}
+		}
+		sb.WriteString(c15SeqStep(t.x, t.y, t.z, e, a, b, flags, feats...))
+	}
+	c.Case("seq", strconv.Itoa(n)+sb.String())
 }
 
 func genC15(c *Ctx) {
 	r := c.Rng
 	if c.Shard == 0 {
 		c.Case("consts", "")
+		c.Case("shape", "")
+		// a small pixel grid in both storage orders: equal x with different y and the reverse, back to back
+		for i, e := range []int{4096, 256, 1000, 777, 0, 1, 8192} {
+			for j, tl := range [][3]int{{1, 1, 2}, {300, 700, 10}, {2097157, 1048653, 22}} {
+				vs := []float64{0, 1, -2, 3, 2} // extent 0: see tileGeom
+				if e > 0 {
+					vs = []float64{0, float64(e - 1), float64(-e), float64(2*e - 1), float64(7 % e)}
+				}
+				var g1, g2 orb.MultiPoint
+				for _, a := range vs {
+					for _, b := range vs {
+						g1 = append(g1, orb.Point{a, b})
+						g2 = append(g2, orb.Point{b, a})
+					}
+				}
+				c.Case("tile", tileHdr(uint32(tl[0]), uint32(tl[1]), tl[2], e)+" 2 "+gs(g1)+" "+gs(orb.LineString(g2))+c15WarmSuffix[(i+j)%5])
+			}
+		}
 		// the package's own test: tile centre
 		c.Case("tile", "1 1 2 4096 1 P "+fb(2048)+" "+fb(2048))
 		for _, g := range orb.AllGeometries {
@@ -456,6 +1110,27 @@ func genC15(c *Ctx) {
 		c.Case("proj", strings.Join([]string{fb(2), fb(-2), fb(0), fb(0), fb(0), fb(1), fb(0), fb(0)}, " ")+" "+gs(orb.Bound{Min: orb.Point{1, 5}, Max: orb.Point{1.7e308, 1.7e308}}))
 		c.Case("proj", strings.Join([]string{fb(2), fb(-2), fb(0), fb(0), fb(2), fb(-2), fb(0), fb(0)}, " ")+" "+gs(orb.Collection{orb.Bound{Min: orb.Point{-1.7e308, 1.7e308}, Max: orb.Point{1.7e308, -1.7e308}}, orb.Bound{Min: orb.Point{0, 0}, Max: orb.Point{math.Copysign(0, -1), math.Copysign(0, -1)}}}))
 	}
+	if c.Shard == c.Shards-1 {
+		// absolute position: the corners of the tile on every listed extent x tiles of zoom 0 .. 22 (among them
+		// x, y >= 2^20 at zoom 22, where (x << n) leaves 32 bits)
+		for i, e := range append(append(append([]int{}, pow2Extents...), otherExtents...), edgeExtents...) {
+			for j, tl := range [][3]int{{0, 0, 0}, {1, 0, 1}, {1, 1, 2}, {300, 700, 10}, {2097157, 1048653, 22}, {4194303, 4194303, 22}, {0, 2097152, 22}, {1048576, 1048575, 21}, {40000, 25000, 16}} {
+				c15AbsCase(c, uint32(tl[0]), uint32(tl[1]), tl[2], e, c15WarmSuffix[(i+j)%5])
+			}
+		}
+		// one layer value, two tiles: the way out on the used value, the way back on another value (and on the same)
+		p00 := orb.Point{0, 0}
+		ls := orb.LineString{{0, 0}, {4095, 4095}, {-4096, 8191}}
+		c.Case("seq", "2"+c15SeqStep(1, 1, 2, 4096, 0, 0, 0, p00)+c15SeqStep(2, 1, 2, 4096, 0, 1, 0, p00))
+		c.Case("seq", "2"+c15SeqStep(1, 1, 2, 4096, 0, 0, 0, p00)+c15SeqStep(2, 1, 2, 4096, 0, 0, 0, p00))
+		c.Case("seq", "3"+c15SeqStep(1, 1, 2, 4096, 0, 0, 0)+c15SeqStep(300, 700, 10, 4096, 0, 1, 0, ls)+c15SeqStep(1, 1, 2, 4096, 1, 0, 0, ls))
+		c.Case("seq", "3"+c15SeqStep(300, 700, 10, 4096, 1, 1, 0, ls)+c15SeqStep(300, 700, 10, 512, 1, 2, 0, p00)+c15SeqStep(300, 700, 10, 1000, 1, 0, 0, ls))
+		c.Case("seq", "3"+c15SeqStep(5, 9, 4, 256, 2, 2, 2, p00)+c15SeqStep(6, 9, 4, 256, 2, 0, 2, p00)+c15SeqStep(5, 9, 4, 1000, 0, 2, 6, p00))
+		c.Case("seq", "3"+c15SeqStep(5, 9, 4, 256, 2, 2, 0, p00)+c15SeqStep(6, 9, 4, 256, 2, 2, 1, p00)+c15SeqStep(7, 9, 4, 100, 2, 1, 1, p00))
+		c.Case("seq", "4"+c15SeqStep(0, 0, 0, 4096, 0, 0, 0, p00)+c15SeqStep(1, 0, 1, 4096, 0, 1, 0, p00)+c15SeqStep(0, 1, 1, 1000, 1, 0, 0, p00)+c15SeqStep(0, 0, 0, 1000, 0, 0, 3, p00))
+	}
+	c15GenBig(c)
+	c15GenLayerSizes(c)
 	// exhaustive per-axis scans of sampled tiles: every pixel coordinate in [-extent, 2*extent) on both axes
 	idx := 0
 	scanTiles := [][3]int{{1, 1, 2}, {300, 700, 10}, {2097157, 1048653, 22}}
@@ -510,7 +1185,13 @@ func genC15(c *Ctx) {
 		for i := 0; i < nf; i++ {
 			sb.WriteString(" " + featTok(r, extent))
 		}
-		c.Case("tile", tileHdr(x, y, z, extent)+" "+strconv.Itoa(nf)+sb.String())
+		c.Case("tile", tileHdr(x, y, z, extent)+" "+strconv.Itoa(nf)+sb.String()+c15WarmSuffix[r.Intn(5)])
+		if k%4 == 1 {
+			c15AbsCase(c, x, y, z, extent, c15WarmSuffix[r.Intn(5)])
+		}
+		if k%2 == 0 {
+			c15GenSeq(c)
+		}
 		// Layers.ProjectToWGS84 / ProjectToTile: 0-3 layers, each with its own extent
 		if k%8 == 0 {
 			nl := r.Intn(4)
@@ -529,11 +1210,11 @@ func genC15(c *Ctx) {
 					lb.WriteString(" " + featTok(r, e))
 				}
 			}
-			c.Case("tiles", strconv.Itoa(int(x))+" "+strconv.Itoa(int(y))+" "+strconv.Itoa(z)+" "+strconv.Itoa(nl)+lb.String())
+			c.Case("tiles", strconv.Itoa(int(x))+" "+strconv.Itoa(int(y))+" "+strconv.Itoa(z)+" "+strconv.Itoa(nl)+lb.String()+c15WarmSuffix[r.Intn(5)])
 		}
 		// lon/lat geometry to tile coordinates (twin only)
 		if k%3 == 0 {
-			c.Case("totile", tileHdr(x, y, z, extent)+" "+gs(geoGeomMerc(r)))
+			c.Case("totile", tileHdr(x, y, z, extent)+" "+gs(geoGeomMerc(r))+c15WarmSuffix[r.Intn(5)])
 		}
 
 		// project.Geometry with a call-counting affine point function
@@ -548,6 +1229,7 @@ func genC15(c *Ctx) {
 		mode := []CoordMode{CoordSmallInt, CoordInt, CoordHalf, CoordFloat}[r.Intn(4)]
 		pg := genGeom(r, GenOpts{Mode: mode, MaxPts: 5, MaxDepth: 3, TopNil: true}, 0)
 		c.Case("proj", strings.Join(co[:], " ")+" "+gs(pg))
+		c.Case("projd", strings.Join(co[:], " ")+" "+gs(pg)) // the exported helper of the kind, called directly
 		if k%16 == 0 { // overflow: Inf - Inf = NaN inside the point function, then math.Min / math.Max of project.Bound
 			h := func() float64 { return []float64{1.7e308, -1.7e308, 1, -3, 0, 9e307}[r.Intn(6)] }
 			var og orb.Geometry = orb.Bound{Min: orb.Point{h(), h()}, Max: orb.Point{h(), h()}}
@@ -555,6 +1237,7 @@ func genC15(c *Ctx) {
 				og = orb.Collection{og, orb.MultiPoint{{h(), h()}, {h(), h()}}}
 			}
 			c.Case("proj", strings.Join(co[:], " ")+" "+gs(og))
+			c.Case("projd", strings.Join(co[:], " ")+" "+gs(og))
 		}
 
 		// project.Geometry on geometries whose slices share backing arrays
